@@ -807,6 +807,11 @@ func populateExpectedStreamResponse(testCase *conformancev1.TestCase) error {
 		case conformancev1.StreamType_STREAM_TYPE_FULL_DUPLEX_BIDI_STREAM:
 			// For a full duplex stream, the first request should be echoed back in the first
 			// payload. The second should be echoed back in the second payload, etc. (i.e. a ping pong interaction)
+			// If more responses are defined than there are requests, the server sends the surplus
+			// responses once the client is done sending; those echo no request.
+			if idx >= len(testCase.Request.RequestMessages) {
+				continue
+			}
 			expected.Payloads[idx].RequestInfo = &conformancev1.ConformancePayload_RequestInfo{
 				Requests: []*anypb.Any{testCase.Request.RequestMessages[idx]},
 			}
